@@ -14,6 +14,17 @@ CHECKS = {
             "DESIGN.md §3 C06"),
 }
 
+CHECKS["C05"] = ("model_checking",
+    "explicit-state BFS over storage-operation histories on the real backends vs a plain-dictionary reference, whole-state probe per canonical state",
+    "All operation histories up to the stated depth over an alphabet with prefix-related names/versions, small/large/oversize/None/exception values, key overrides and metadata are executed on memory, filesystem and filesystem+cache backends; every answer is compared with a dictionary, and every distinct canonical state (file tree + cache + model) is additionally compared as a whole through a fresh cache-less view, including that nothing superseded or forgotten is cache-resident.",
+    "Depth-bounded (quick 3-5, thorough 4-6 operations); values are tagged strings so staleness is observable; metadata stored with a superseded data object is treated as undefined.",
+    "DESIGN.md §3 C05")
+CHECKS["C07"] = ("model_checking",
+    "explicit-state BFS over storage histories with whole-store integrity scan (hash, dedup, link, immutability) after every transition",
+    "The C05 exploration on the filesystem backend with byte-identical results from different calls/functions, partitions, exceptions and key-override writes to one shared key; after every transition every stored object is re-hashed, links are followed, duplicates counted, and every live memento's bytes are compared with the bytes recorded when it was created.",
+    "Depth-bounded (quick 2-3, thorough 3-5); crash/fault interleavings of a write are C08's subject, not this check's.",
+    "DESIGN.md §3 C07")
+
 PENDING = {}
 
 
